@@ -140,6 +140,11 @@ def scenario_for(seed, index, tier):
         return sc
     rng = make_rng('scenario', ID, seed, index)
     sc = base_scenario(rng, small=rng.random() < 0.3)
+    if rng.random() < 0.2:
+        # the same Connection is used for a second session with its own
+        # framing mode: nothing of the first may leak into it
+        sc['second'] = base_scenario(rng, proto=sc['proto'], small=True)
+        sc['server']['conns'].append(sc['second']['server']['conns'][0])
     v = rng.random()
     if v < 0.25:
         sc['net']['one_byte_reads'] = True
@@ -206,21 +211,31 @@ def expected_outgoing(ids, writes):
 
 def _execute(scenario, tape, want_world=False):
     w = World(scenario, tape)
-    st = {'log': [], 'errs': [], 'late_errs': []}
+    sessions = [scenario] + ([scenario['second']]
+                             if scenario.get('second') else [])
     ids = ids_for(scenario['proto'])
-    exp_in = expected_incoming(ids, scenario['items'])
-    exp_out = expected_outgoing(ids, scenario['writes'])
+    S = []
+    for sc in sessions:
+        S.append({'log': [], 'errs': [], 'late_errs': [], 'in_play': False,
+                  'exp_in': expected_incoming(ids, sc['items']),
+                  'exp_out': expected_outgoing(ids, sc['writes']),
+                  'sc': sc})
+    st = {'cur': 0, 'S': S}
 
     def build(w):
         from minecraft.networking.connection import Connection
         from minecraft.networking.packets import Packet, serverbound
         from minecraft.networking import types as T
+
+        def cur():
+            return S[st['cur']]
+
+        def on_exc(e, i):
+            c = cur()
+            (c['late_errs'] if c.get('disc_started') else c['errs']).append(e)
         conn = Connection('sim.example', 25565, username='framer',
                           allowed_versions=[scenario['proto']],
-                          handle_exception=lambda e, i: (
-                              st['late_errs'] if st.get('disc_started')
-                              else st['errs']).append(e))
-        st['in_play'] = False
+                          handle_exception=on_exc)
 
         class Custom(Packet):
             id = 0x7A
@@ -229,11 +244,12 @@ def _execute(scenario, tape, want_world=False):
                           {'c': T.VarIntPrefixedByteArray}]
 
         def on_packet(p):
+            c = cur()
             name = p.packet_name
             if name == 'login success':
-                st['in_play'] = True
+                c['in_play'] = True
                 return
-            if not st['in_play']:
+            if not c['in_play']:
                 return
             if name == 'plugin message' or (
                     type(p).__name__ == 'PluginMessagePacket'):
@@ -251,41 +267,56 @@ def _execute(scenario, tape, want_world=False):
                 rec = (p.id, 'generic', ())
             else:
                 rec = (p.id, name, ())
-            st['log'].append(rec)
+            c['log'].append(rec)
         conn.register_packet_listener(on_packet, Packet, early=True)
 
         def user():
-            st['connect'] = w.api('connect', conn.connect)
-            w.wait_until(lambda: st['in_play'] or st['errs'], 30000000)
-            if not st['errs']:
-                for wr in scenario['writes']:
-                    if wr[0] == 'plugin':
-                        pkt = serverbound.play.PluginMessagePacket(
-                            channel=wr[1], data=bytes.fromhex(wr[2]))
-                    elif wr[0] == 'chat':
-                        pkt = serverbound.play.ChatPacket(message=wr[1])
-                    else:
-                        pkt = Custom(a=wr[2], b=wr[3],
-                                     c=bytes.fromhex(wr[4]))
-                    w.api('write', conn.write_packet, pkt)
-                n_ka = sum(1 for it in scenario['items'] if it[0] == 'ka')
-                want_frames = len(exp_out) + n_ka
+            for k, c in enumerate(S):
+                st['cur'] = k
+                sc = c['sc']
+                c['connect'] = w.api('connect', conn.connect)
+                w.wait_until(lambda: c['in_play'] or c['errs'], 30000000)
+                if not c['errs']:
+                    for wr in sc['writes']:
+                        if wr[0] == 'plugin':
+                            pkt = serverbound.play.PluginMessagePacket(
+                                channel=wr[1], data=bytes.fromhex(wr[2]))
+                        elif wr[0] == 'chat':
+                            pkt = serverbound.play.ChatPacket(message=wr[1])
+                        else:
+                            pkt = Custom(a=wr[2], b=wr[3],
+                                         c=bytes.fromhex(wr[4]))
+                        w.api('write', conn.write_packet, pkt)
+                    n_ka = sum(1 for it in sc['items'] if it[0] == 'ka')
+                    want_frames = len(c['exp_out']) + n_ka
 
-                def settled():
-                    app = w.server.apps[0] if w.server.apps else None
-                    return st['errs'] or (
-                        len(st['log']) >= len(exp_in) and app is not None
-                        and app.play_frames >= want_frames)
-                st['settled'] = w.wait_until(settled, 60000000)
-            st['disc_started'] = True
-            st['disc'] = w.api('disconnect', conn.disconnect)
-            st['quiet'] = w.wait_until(
-                lambda: common.all_net_done(w.sim), 10000000)
+                    def settled():
+                        app = w.server.apps[k] if len(w.server.apps) > k \
+                            else None
+                        return c['errs'] or (
+                            len(c['log']) >= len(c['exp_in']) and
+                            app is not None and
+                            app.play_frames >= want_frames)
+                    c['settled'] = w.wait_until(settled, 60000000)
+                c['disc_started'] = True
+                c['disc'] = w.api('disconnect', conn.disconnect)
+                c['quiet'] = w.wait_until(
+                    lambda: common.all_net_done(w.sim), 10000000)
         w.sim.spawn(user, 'user0')
 
     w.run(build)
     res = common.result_from_world(w)
-    check(scenario, w, st, res, exp_in, exp_out, ids)
+    for k, c in enumerate(S):
+        if k < len(w.server.apps) or k == 0:
+            check(c['sc'], w, c, res, c['exp_in'], c['exp_out'], ids, k,
+                  scenario)
+        if res.violations:
+            if k:
+                res.violations[:] = [(sig + ':second-session', d)
+                                     for sig, d in res.violations]
+            break
+    if len(S) > 1 and not res.violations:
+        res.probes['second-session-on-same-connection'] = 1
     if want_world:
         return res, w
     return res
@@ -295,7 +326,8 @@ def execute(scenario, tape):
     return _execute(scenario, tape)
 
 
-def check(scenario, w, st, res, exp_in, exp_out, ids):
+def check(scenario, w, st, res, exp_in, exp_out, ids, k=0, top=None):
+    top = top or scenario
     sim = w.sim
     V = res.violations
 
@@ -304,8 +336,9 @@ def check(scenario, w, st, res, exp_in, exp_out, ids):
     res.summary = {'proto': scenario['proto'],
                    'threshold': scenario['threshold'],
                    'cipher': scenario['cipher'],
-                   'variant': scenario.get('variant'),
-                   'cut': scenario.get('cut'),
+                   'variant': top.get('variant'),
+                   'cut': top.get('cut'),
+                   'sessions': 2 if top.get('second') else 1,
                    'items': [(it[0], len(it[2]) // 2 if it[0] in
                               ('plugin', 'unknown') else None)
                              for it in scenario['items']][:12],
@@ -315,16 +348,16 @@ def check(scenario, w, st, res, exp_in, exp_out, ids):
     res.nontrivial = bool(res.faults.get('segment') or
                           res.faults.get('short-read') or
                           res.faults.get('cut-pause'))
-    res.state_sigs = [(scenario['threshold'], scenario['cipher'],
-                       scenario.get('variant'))]
+    res.state_sigs = list(res.state_sigs or []) + [
+        (scenario['threshold'], scenario['cipher'], top.get('variant'), k)]
     ob()
     if sim.end_state != 'done':
         V.append(('C01/%s' % sim.end_state, repr(sim.end_detail)))
         return
-    if not w.server.apps:
+    if len(w.server.apps) <= k:
         V.append(('C01/no-connection', None))
         return
-    app = w.server.apps[0]
+    app = w.server.apps[k]
     ob()
     if st['errs']:
         V.append(('C01/reader-error:%s' % type(st['errs'][0]).__name__,
@@ -408,6 +441,11 @@ def check(scenario, w, st, res, exp_in, exp_out, ids):
 
 
 def shrink_scenario(sc):
+    if sc.get('second'):
+        c = copy.deepcopy(sc)
+        del c['second']
+        c['server']['conns'] = c['server']['conns'][:1]
+        yield c
     for key in ('items', 'writes'):
         lst = sc[key]
         for j in range(len(lst)):
@@ -449,7 +487,7 @@ def evidence(tier, seed, m, d):
              'up to 25 clientbound frames (sizes around threshold-1/'
              'threshold/threshold+1, unknown ids, up to 8 KiB) and up to 12 '
              'written packets, delivered as whole frames / 1-byte reads / '
-             'tape-chosen partitions / three long-paused cuts; evaluations = '
+             'tape-chosen partitions / three long-paused cuts; 20% of the seeded scenarios run a second session with its own framing mode on the same Connection; evaluations = '
              'oracle obligations (one per expected packet and direction); '
              'non-trivial = at least one segmentation, short read or cut '
              'pause fired; distinct = distinct run digests' % SWEEP_STREAMS)
